@@ -185,6 +185,9 @@ def main():
     if cfgname == 'default':
         if kw['only'] is None and owned & set(all_vc):
             kw['only'] = [n for n in all_vc if n not in owned]
+        owned_specs = set(o for c in configs.values() for o in c.get('own_specs', []))
+        if kw['specs'] is None and owned_specs:
+            kw['specs'] = sorted(n[:-3] for n in os.listdir(spec_dir) if n.endswith('.rs') and n[:-3] not in owned_specs)
         engine.ACTIVE_CFGS = None
     else:
         c = configs[cfgname]
@@ -192,6 +195,8 @@ def main():
         kw['specs'] = [m for m in c['specs'] if os.path.exists(os.path.join(spec_dir, m + '.rs'))]
         engine.ACTIVE_CFGS = engine.CFGS + c.get('cfgs_extra', [])
     annotate.DEGRADE = {}
+    ANNOTATE_KW.clear()
+    ANNOTATE_KW.update(kw)
     rc = 2
     for attempt in range(4):
         scratch, index = engine.snapshot_and_annotate(contracts_dir, spec_dir, **kw)
@@ -285,8 +290,9 @@ def modules_for(prop, index, spec_dir):
 
 
 def prerun(prop, cfg, scratch, index, spec_dir, seed):
-    return engine.run_verus(scratch, modules=modules_for(prop, index, spec_dir), rlimit=cfg.get('rlimit', 30),
-                            seed=(seed if seed else None))
+    # the solver always starts from its default seed: an `unsat` answer is a proof under any seed, so VERIF_SEED (used for
+    # the witness search and for the extra stability runs of the thorough tier) must not be able to make a proof flaky
+    return engine.run_verus(scratch, modules=modules_for(prop, index, spec_dir), rlimit=cfg.get('rlimit', 30), seed=None)
 
 
 _FILE_LINES = {}
@@ -408,8 +414,28 @@ def decide(prop, tier, seed, cfg, scratch, index, spec_dir, contracts_dir, evide
     vres = (res.get('json') or {}).get('verification-results') or {}
     n_verified = vres.get('verified', 0)
 
-    # thorough: extra solver seeds (stability) and the vacuity pass
     extra = {}
+    # a unit that only ran out of solver resources is retried with two other seeds: any successful run is a valid proof
+    rl = [u for u in undecided if verdicts[u['uid']]['errors'] and all(
+        'rlimit' in e['message'].lower() or 'resource limit' in e['message'].lower() for e in verdicts[u['uid']]['errors'])
+        and not u.get('degraded')]
+    if rl and not hard_global:
+        rescued = []
+        for s_ in (11, 23):
+            r2 = engine.run_verus(scratch, modules=modules, rlimit=rlimit, seed=s_)
+            runs.append(r2)
+            v2, _g2 = engine.classify(index, r2, scratch)
+            for u in list(rl):
+                if v2[u['uid']]['verdict'] == 'discharged':
+                    rl.remove(u)
+                    undecided.remove(u)
+                    proved.append(u)
+                    verdicts[u['uid']] = {'verdict': 'discharged', 'errors': [], 'proved_with_seed': s_}
+                    rescued.append({'unit': u['path'], 'seed': s_})
+            if not rl:
+                break
+        extra['rlimit_rescued'] = rescued
+    # thorough: extra solver seeds (stability, reported only) and the vacuity pass
     if tier == 'thorough' and not hard_global and not failed:
         flips = []
         for s in (seed + 1, seed + 2):
@@ -419,14 +445,9 @@ def decide(prop, tier, seed, cfg, scratch, index, spec_dir, contracts_dir, evide
             for u in units:
                 if not u['assumed'] and v2[u['uid']]['verdict'] != verdicts[u['uid']]['verdict']:
                     flips.append({'unit': u['path'], 'seed': s, 'verdict': v2[u['uid']]['verdict']})
-        extra['solver_seeds'] = [seed, seed + 1, seed + 2]
+        extra['solver_seeds'] = ['default', seed + 1, seed + 2]
+        # instability is a maintenance signal (split the proof), not a verdict: the default-seed proof stands
         extra['unstable_units'] = flips
-        if flips:
-            for f in flips:
-                for u in list(proved):
-                    if u['path'] == f['unit']:
-                        proved.remove(u)
-                        undecided.append(u)
         if os.environ.get('VERIF_NO_SELFTEST') != '1':
             extra['selftest_seeded'] = selftest_seeded(prop)
         vac = vacuity_pass(prop, modules, rlimit, spec_dir, contracts_dir)
@@ -651,18 +672,24 @@ def selftest_seeded(prop):
     return res
 
 
+ANNOTATE_KW = {}   # sidecar / spec selection of the current configuration (set by main)
+
+
 def vacuity_pass(prop, modules, rlimit, spec_dir, contracts_dir):
     """Second annotated copy with `assert(false)` at the entry of every unit: each MUST be refuted,
     otherwise the unit's precondition is contradictory."""
     annotate.VACUITY = True
     try:
-        scratch, index = engine.snapshot_and_annotate(contracts_dir, spec_dir)
+        scratch, index = engine.snapshot_and_annotate(contracts_dir, spec_dir, **ANNOTATE_KW)
     finally:
         annotate.VACUITY = False
     try:
         res = engine.run_verus(scratch, modules=modules, rlimit=rlimit)
         verdicts, glob = engine.classify(index, res, scratch)
         vac, ok = [], 0
+        hard = [g for g in glob if g.get('kind') == 'other']
+        if hard:
+            return {'probes': 0, 'refuted_as_required': 0, 'vacuous': [], 'tool_error': hard[0]['message'][:200]}
         for u in index['units']:
             if prop not in u['props'] or u['assumed']:
                 continue
